@@ -148,6 +148,11 @@ static Boolean GetExport(char* Name, LargeWord* Result) {
     LongInt z;
 
     for (PartRun = PartList; PartRun; PartRun = PartRun->Next) {
+        /* records without relocation info export nothing */
+
+        if (!PartRun->RelocInfo) {
+            continue;
+        }
         for (z = 0; z < PartRun->RelocInfo->ExportCount; z++) {
             if (!strcmp(Name, PartRun->RelocInfo->ExportEntries[z].Name)) {
                 *Result = PartRun->RelocInfo->ExportEntries[z].Value;
@@ -392,6 +397,12 @@ static void ProcessFile(char const* pSrcName, int Index) {
                 ChkIO(SrcName);
             }
 
+            /* the part list was built from the same records in pass 1 */
+
+            if (!PartRun || !PartRun->RelocInfo) {
+                FormatError(SrcName, getmessage(Num_FormatRelocInfoMissing));
+            }
+
             UndefFlag = False;
             for (z = 0; z < PartRun->RelocInfo->RelocCount; z++) {
                 PReloc = PartRun->RelocInfo->RelocEntries + z;
@@ -402,6 +413,14 @@ static void ProcessFile(char const* pSrcName, int Index) {
                     Found = GetExport(PReloc->Name, &Value);
                 }
                 if (Found) {
+                    /* the patched field must lie inside this record */
+
+                    if ((PReloc->Addr < PartRun->CodeStart)
+                        || (PReloc->Addr - PartRun->CodeStart
+                                    + (RelocBitCnt(PReloc->Type) >> 3)
+                            > Len)) {
+                        FormatError(SrcName, "relocation outside of its record");
+                    }
                     if (Verbose >= 2) {
                         printf("%s 0x%" PRIx64 "...", getmessage(Num_InfoMsgReading),
                                (unsigned long long)PReloc->Addr);
@@ -431,10 +450,11 @@ static void ProcessFile(char const* pSrcName, int Index) {
                 if (fwrite(Buffer, 1, Len, TargFile) != Len) {
                     ChkIO(TargName);
                 }
-                if (PartRun) {
-                    PartRun = PartRun->Next;
-                }
             }
+
+            /* this record is done, also when it had undefined symbols */
+
+            PartRun = PartRun->Next;
             SumLen += Len;
         }
 
